@@ -59,7 +59,6 @@ func TestProp(t *testing.T) {
 	rep.Extra("wall_by_stream_s", walls)
 	if !replaying {
 		rep.Floor("okta_cache_hits", 100)
-		rep.Floor("okta_cache_hits_permuted_order", 20)
 		rep.Floor("okta_directory_consultations", 100)
 		rep.Floor("okta_directory_errors", 20)
 		rep.Floor("okta_consultations_after_ttl_sleep", 5)
